@@ -65,3 +65,9 @@ func worldOpts(w *world.World, level int) *verify.Options {
 	}
 	return mkOpts(level, g, w.Pool, w.Times)
 }
+
+// refTimes is the reference instant of the repository's sample data (2023-07-01).
+func refTimes() [5]time.Time {
+	ref := time.Date(2023, 7, 1, 1, 0, 0, 0, time.UTC)
+	return [5]time.Time{ref, ref, ref, ref, ref}
+}
